@@ -4,14 +4,12 @@ namespace UrcuVerif.Lfq
 
 /-- destructure the hypothesis, unfold the definitions -/
 macro "inv_open" h:ident : tactic => `(tactic|
-  (have tlL := Inv.tl_live $h; have hdL := Inv.hd_live $h; have headIn := Inv.head_in $h
-   have nextMem := Inv.next_mem $h; have lastU := Inv.last_unique $h
-   obtain ⟨seg, nodup, inq_iff, rem_next, tail_in, tail_ok, clk_cs, clk_rm, op_cs, cs_n, tl_held, hd_held, e_node, node_inj,
+  (obtain ⟨seg, nodup, inq_iff, rem_next, tail_in, tail_ok, clk_cs, clk_rm, op_cs, cs_n, tl_held, hd_held, e_node, node_inj,
            e_cas, e_adv, e_help, d_hd, d_nx, d_ldn2, d_tail, fifo, gens_tl, gens_hd, hi_fresh, pre_ok, no_uaf⟩ := $h
    simp only [HoldsTl, HoldsHd, Owns, Held, abs] at *))
 
 macro "inv_close" : tactic => `(tactic|
-  (constructor <;> (try simp only [tick, HoldsTl, HoldsHd, Owns, Held, abs, upd]) <;> grind))
+  (constructor <;> (try simp only [tick, live, HoldsTl, HoldsHd, Owns, Held, abs, upd]) <;> grind))
 
 macro "st_inj" st:ident : tactic => `(tactic|
   ((try simp only [Option.some.injEq, Prod.mk.injEq] at $st:ident); have hst := ($st).1; subst hst))
@@ -27,7 +25,7 @@ macro "inv_dbg" st:ident : tactic => `(tactic|
   (simp only [step] at $st:ident
    repeat' (split at $st:ident)
    all_goals first | (simp at $st:ident; done) |
-     (st_inj $st; constructor <;> (try simp only [tick, HoldsTl, HoldsHd, Owns, Held, abs, upd]) <;> (first | grind | skip))))
+     (st_inj $st; constructor <;> (try simp only [tick, live, HoldsTl, HoldsHd, Owns, Held, abs, upd]) <;> (first | grind | skip))))
 
 theorem inv_lock {c s s' t o} (h : Inv c s) (st : step c s t .lock = some (s', o)) : Inv c s' := by
   inv_open h; inv_auto st
@@ -42,6 +40,7 @@ theorem inv_deqCall {c s s' t o} (h : Inv c s) (st : step c s t .deqCall = some 
   inv_open h; inv_auto st
 
 theorem inv_ldHead {c s s' t o} (h : Inv c s) (st : step c s t .ldHead = some (s', o)) : Inv c s' := by
+  have headIn := h.head_in
   inv_open h; inv_auto st
 
 theorem inv_destroy {c s s' t o} (h : Inv c s) (st : step c s t .destroy = some (s', o)) : Inv c s' := by
